@@ -940,5 +940,68 @@ def r17_15(ctx):
     return r
 
 
+def r17_16(ctx):
+    """'pending ... API calls return promptly instead of hanging': a receive track's recv() returns when the track is
+    stopped. close() stops `receiver.track()` and calls RtpReceiver::stop(); the receiver also hands out one track per
+    simulcast layer (add_simulcast_track) and keeps them in `simulcast_tracks`. Every field of RtpReceiver that holds
+    SampleStreamTrack handles must be ended on the close path, or a recv() pending on such a handle never returns.
+    Decided: the fields are read from the type; for each, close_with_reason or RtpReceiver::stop calls
+    SampleStreamTrack::stop on a value taken from that field (for `track`: via the receiver.track() accessor)."""
+    r = RuleResult("R17.16", "K6", "close() ends every track handle a receiver has handed out")
+    adt = ctx.facts.adts.get("peer_connection::RtpReceiver")
+    if not adt:
+        raise core.CheckerError("R17.16: RtpReceiver not found")
+    fields = [f["n"] for f in adt["variants"][0]["fields"] if "SampleStreamTrack" in f["ty"]]
+    r.need("track-holding fields of RtpReceiver", len(fields), 2)
+    cw = ctx.body("peer_connection::PeerConnectionInner::close_with_reason")
+    st = ctx.body("peer_connection::RtpReceiver::stop")
+    r.scope += [cw.name, st.name]
+    calls_stop = any(p and p.endswith("RtpReceiver::stop") for _bi, _t, p in cw.calls())
+    for f in fields:
+        ended = False
+        for b in ([cw, st] if calls_stop else [cw]):
+            for bi, t, p in b.calls():
+                if not p or p.split("::")[-1] != "stop" or "RtpReceiver" in p or not t["a"]:
+                    continue
+                a0 = b.term_operand(t["a"][0])
+                for a0x in [a0] + list(core.expand_vars(b, a0, depth=3)):
+                    if mir.has_field(a0x, f) or (f == "track" and mir.has(a0x, lambda x: x[0] == "call" and x[1].endswith("RtpReceiver::track"))):
+                        ended = True
+        if ended:
+            r.ok({"field": f, "ended by": "close_with_reason / RtpReceiver::stop"})
+        else:
+            r.violate(st.name, "track-not-ended:%s" % f, st.where(0),
+                      "close() never stops the track handles kept in RtpReceiver.%s: a recv() pending on one of them does not return after close()" % f)
+    return r
+
+
+def r17_17(ctx):
+    """'subsequent API calls return promptly' and 'all background tasks ... are released': close() stops every sender and
+    receiver loop that exists. add_track on a closed connection used to wire the new sender to the old transport and
+    start a send loop that nothing stops any more (a later close() returns early on Closed). Like create_data_channel
+    (R17.14), add_track_with_stream_id starts nothing on a closed connection: every call that can start a loop or create
+    a transceiver is on the `signaling_state != Closed` edge."""
+    r = RuleResult("R17.17", "K1", "add_track starts nothing on a closed connection")
+    b = ctx.body("peer_connection::PeerConnection::add_track_with_stream_id")
+    r.scope.append(b.name)
+    sites = [(bi, p.split("::")[-1]) for bi, t, p in b.calls() if p and p.startswith("peer_connection::") and
+             p.split("::")[-1] in ("add_transceiver", "set_sender", "set_transport", "build", "new")]
+    r.need("sender / transceiver set-up calls in add_track_with_stream_id", len(sites), 2)
+
+    def open_edge(term, meaning, *_):
+        if term[0] == "call" and "PartialEq" in term[1] and isinstance(meaning, bool) and \
+                mir.has_field(term, "signaling_state") and mir.has(term, lambda x: x[0] == "agg" and x[2] == "Closed"):
+            return meaning is term[1].endswith("::ne")
+        return False
+    g = core.guard_edges(b, open_edge)
+    for bi, what in sites:
+        if g and core.k1(b, [bi], g)[bi] is None:
+            r.ok({"site": b.where(bi), "call": what, "cut_by": "signaling state != Closed"})
+        else:
+            r.violate(b.name, "add_track:closed:%s" % what, b.where(bi),
+                      "add_track reaches %s on a closed connection: the new sender is wired to the old transport and its send loop is never stopped" % what)
+    return r
+
+
 def run(ctx):
-    return [r17_1(ctx), r17_2(ctx), r17_3(ctx), r17_4(ctx), r17_5(ctx), r17_6(ctx), r17_7(ctx), r17_8(ctx), r17_9(ctx), r17_10(ctx), r17_11(ctx), r17_12(ctx), r17_13(ctx), r17_14(ctx), r17_15(ctx)]
+    return [r17_1(ctx), r17_2(ctx), r17_3(ctx), r17_4(ctx), r17_5(ctx), r17_6(ctx), r17_7(ctx), r17_8(ctx), r17_9(ctx), r17_10(ctx), r17_11(ctx), r17_12(ctx), r17_13(ctx), r17_14(ctx), r17_15(ctx), r17_16(ctx), r17_17(ctx)]
